@@ -549,11 +549,9 @@ func (c *Ctx) fillSlice(st *State, a *Val, et types.Type, _ *Val) {
 		k := HKey{Elem: true, T: tk, Leaf: j}
 		h := c.heapGet(st, k, heapSort(true, s))
 		old := Select(h, base)
-		na := Fresh("cleared", old.S)
 		i := BoundVar("i", BV(64))
 		in := And(ULe(off, i), ULt(i, Add(off, ln)))
-		body := Eq(Select(na, i), Ite(in, zeroOfSort(s), Select(old, i)))
-		c.assume(st.pc, Forall([]*Term{i}, body, []*Term{Select(na, i)}))
+		na := Lambda(i, Ite(in, zeroOfSort(s), Select(old, i)))
 		st.heap[k] = Store(h, base, na)
 	}
 }
@@ -602,11 +600,9 @@ func (c *Ctx) builtinAppend(st *State, args []*Val, call *ssa.CallCommon, pos to
 				na = Store(na, Add(base0, Const(64, e)), Select(srcA, Add(moff, Const(64, e))))
 			}
 		} else {
-			na = Fresh("appended", oldA.S)
 			i := BoundVar("i", BV(64))
 			inNew := And(ULe(base0, i), ULt(i, Add(base0, mlen)))
-			body := Eq(Select(na, i), Ite(inNew, Select(srcA, Add(moff, Sub(i, base0))), Select(oldA, i)))
-			c.assume(st.pc, Forall([]*Term{i}, body, []*Term{Select(na, i)}))
+			na = Lambda(i, Ite(inNew, Select(srcA, Add(moff, Sub(i, base0))), Select(oldA, i)))
 		}
 		st.heap[k] = Store(h, nref, na)
 	}
@@ -651,11 +647,9 @@ func (c *Ctx) builtinCopy(st *State, args []*Val, resT types.Type) *Val {
 				na = Store(na, Add(dl[1], Const(64, e)), Select(srcA, Add(sl[1], Const(64, e))))
 			}
 		} else {
-			na = Fresh("copied", dstA.S)
 			i := BoundVar("i", BV(64))
 			in := And(ULe(dl[1], i), ULt(i, Add(dl[1], n)))
-			body := Eq(Select(na, i), Ite(in, Select(srcA, Add(sl[1], Sub(i, dl[1]))), Select(dstA, i)))
-			c.assume(st.pc, Forall([]*Term{i}, body, []*Term{Select(na, i)}))
+			na = Lambda(i, Ite(in, Select(srcA, Add(sl[1], Sub(i, dl[1]))), Select(dstA, i)))
 		}
 		st.heap[k] = Store(h, dl[0], na)
 	}
@@ -810,11 +804,9 @@ func (c *Ctx) writerWrite(st *State, recv *Val, p *Val, call *ssa.CallCommon) *V
 			na = Store(na, Add(logLen, Const(64, e)), Select(src, Add(l[1], Const(64, e))))
 		}
 	} else {
-		na = Fresh("wlog", logArr.S)
 		i := BoundVar("i", BV(64))
 		in := And(ULe(logLen, i), ULt(i, Add(logLen, n)))
-		body := Eq(Select(na, i), Ite(in, Select(src, Add(l[1], Sub(i, logLen))), Select(logArr, i)))
-		c.assume(st.pc, Forall([]*Term{i}, body, []*Term{Select(na, i)}))
+		na = Lambda(i, Ite(in, Select(src, Add(l[1], Sub(i, logLen))), Select(logArr, i)))
 	}
 	c.assume(st.pc, ULt(logLen, Const(64, 1<<50)))
 	newLog := &Val{Typ: g.Typ, L: []*Term{Ite(okv, na, Fresh("wlogerr", logArr.S)), Ite(okv, Add(logLen, n), Fresh("wlenerr", BV(64)))}}
